@@ -110,32 +110,32 @@ pub mod verif {
 
     /// The rotate pass.
     pub fn rotate(rule: Rule) -> Rule {
-        super::rotator::rotate(rule)
+        rotator::rotate(rule)
     }
 
     /// The unroll pass.
     pub fn unroll(rule: Rule) -> Rule {
-        super::unroller::unroll(rule)
+        unroller::unroll(rule)
     }
 
     /// The concatenate pass.
     pub fn concatenate(rule: Rule) -> Rule {
-        super::concatenator::concatenate(rule)
+        concatenator::concatenate(rule)
     }
 
     /// The factor pass.
     pub fn factor(rule: Rule) -> Rule {
-        super::factorizer::factor(rule)
+        factorizer::factor(rule)
     }
 
     /// The list pass.
     pub fn list(rule: Rule) -> Rule {
-        super::lister::list(rule)
+        lister::list(rule)
     }
 
     /// The skip pass (needs all rules for inlining).
     pub fn skip(rule: Rule, rules: &[Rule]) -> Rule {
-        super::skipper::skip(rule, &to_hash_map(rules))
+        skipper::skip(rule, &to_hash_map(rules))
     }
 
     /// Plain conversion of an (already unrolled) rule.
@@ -145,7 +145,7 @@ pub mod verif {
 
     /// The restore-on-error pass.
     pub fn restore_on_err(rule: OptimizedRule, rules: &[OptimizedRule]) -> OptimizedRule {
-        super::restorer::restore_on_err(rule, &to_optimized_hash_map(rules))
+        restorer::restore_on_err(rule, &to_optimized_hash_map(rules))
     }
 }
 
